@@ -1444,6 +1444,50 @@ func c11(c *Ctx) {
 	if !c.Quick() {
 		nseq, nconc = 12000, 20000
 	}
+	// a server VALUE that is not serving: New() without Run(), and Run() that could not bind its address.  No key is
+	// online there, so a command must be answered ErrNotExistKey promptly (the session manager answers, whatever the
+	// listener does) - in-process, a blocked call is abandoned after 3 s and reported
+	for _, mode := range []string{"new-without-run", "run-address-in-use"} {
+		opts := []service.Option{service.WithHostPorts("127.0.0.1:1")}
+		var hold net.Listener
+		if mode == "run-address-in-use" {
+			hold, _ = net.Listen("tcp", "127.0.0.1:0")
+			if hold != nil {
+				opts = []service.Option{service.WithHostPorts(hold.Addr().String())}
+			}
+		}
+		g := service.New(opts...)
+		if mode == "run-address-in-use" {
+			go g.Run()
+			time.Sleep(150 * time.Millisecond)
+		}
+		ch := make(chan string, 1)
+		go func() {
+			m := g.SendActiveMessage(service.NewActiveMessage("01", consts.JT808CommandType(cmdID), []byte{1, 0, 0, 0}, cmdTimeout))
+			switch {
+			case m == nil:
+				ch <- "nil message"
+			case errors.Is(m.ExtensionFields.Err, service.ErrNotExistKey):
+				ch <- "noexist"
+			default:
+				ch <- fmt.Sprintf("other: %v", m.ExtensionFields.Err)
+			}
+		}()
+		got := "blocked for 3 s (abandoned)"
+		select {
+		case got = <-ch:
+		case <-time.After(3 * time.Second):
+		}
+		c.Eval("notserving "+mode, true)
+		c.Count("notserving:" + mode + ":" + strings.Fields(got)[0])
+		if got != "noexist" {
+			c.Violate(Violation{Signature: "C11/not-serving", What: "a command to a server value that is not serving (" + mode + ")",
+				Input: "notserving " + mode, Observed: got, Required: "ErrNotExistKey at once: no key is online"})
+		}
+		if hold != nil {
+			hold.Close()
+		}
+	}
 	p := &parent{c: c}
 	// the child: this harness command rebuilt with the delay overlay (random Gosched/Sleep before every
 	// channel operation, close, join/leave call and socket write of connection.go)
